@@ -341,7 +341,7 @@ def case_on_note(rng):
     cyc = rng.random() < 0.45
     k = rng.randint(1, 6)
     n = rng.randint(0, 13)
-    pools = {"v": (1, 127), "q": (10, 100), "t": (0, 40), "o": (2, 8), "l": (1, 200)}
+    pools = {"v": (1, 127), "q": (10, 100), "t": (0, 40), "o": (0, 9), "l": (1, 200)}
     lo, hi = pools[w]
     vs = [rng.randint(lo, hi) for _ in range(k)]
     notes, info = gen_notes(rng, n)
@@ -406,7 +406,7 @@ def case_cancel(rng):
     w = rng.choice("vqtol")
     cyc = rng.random() < 0.5
     k = rng.randint(2, 5)
-    pools = {"v": (1, 127), "q": (10, 100), "t": (0, 40), "o": (2, 8), "l": (1, 200)}
+    pools = {"v": (1, 127), "q": (10, 100), "t": (0, 40), "o": (0, 9), "l": (1, 200)}
     lo, hi = pools[w]
     vs = [rng.randint(lo, hi) for _ in range(k)]
     a = rng.randint(0, k - 1 if not cyc else k + 2)      # notes before the plain command
@@ -523,7 +523,7 @@ def case_sequence(rng):
     before the reservation, or the last applied one as the code stores it) both readings are accepted, consistently
     for the whole source; for l the note length falls back to the current `l` length."""
     w = rng.choice("vqtol")
-    pools = {"v": (1, 127), "q": (10, 100), "t": (0, 40), "o": (2, 8), "l": (5, 200)}
+    pools = {"v": (1, 127), "q": (10, 100), "t": (0, 40), "o": (0, 9), "l": (5, 200)}
     lo, hi = pools[w]
     phases = []
     shape = rng.choice(["cycle-note", "note-cycle", "note-note", "cycle-plain-note", "note-plain-cycle", "cycle-cycle", "random"])
